@@ -19,6 +19,32 @@ type M2 struct{ V int }
 type M3 struct{ V int }
 type M4 struct{ V int }
 
+// M5 is a plain handler type with a payload big enough to cross several reads of a stream
+// transport; the handler checks the payload against V (see BigPayload) and records -V-1 when
+// the content changed on the way.
+type M5 struct {
+	V   int
+	Pad []byte
+}
+
+// BigPayload builds the M5 message for value v: n bytes derived from v.
+func BigPayload(v, n int) *M5 {
+	p := make([]byte, n)
+	for i := range p {
+		p[i] = byte(v*31 + i*7 + i/251)
+	}
+	return &M5{V: v, Pad: p}
+}
+
+func padOK(m M5) bool {
+	for i, b := range m.Pad {
+		if b != byte(m.V*31+i*7+i/251) {
+			return false
+		}
+	}
+	return true
+}
+
 // MSync is a plain handler type used as a barrier: handlers run one at a
 // time in acceptance order, so once the barrier was handled everything
 // accepted before it has been dispatched.
@@ -42,11 +68,11 @@ type Delivery struct {
 
 // Rec records what one protocol instance saw.
 type Rec struct {
-	mu      sync.Mutex
-	Tni     *onet.TreeNodeInstance
-	Dels    []Delivery
-	SyncCh  chan int
-	Ch2     chan []struct {
+	mu     sync.Mutex
+	Tni    *onet.TreeNodeInstance
+	Dels   []Delivery
+	SyncCh chan int
+	Ch2    chan []struct {
 		*onet.TreeNode
 		M2
 	}
@@ -151,7 +177,7 @@ type proto struct {
 	rec *Rec
 }
 
-func (p *proto) Start() error    { return nil }
+func (p *proto) Start() error { return nil }
 
 // ProcessProtocolMsg is what the overlay calls to hand a message over. The
 // wrapper only records the order of hand-overs; holding accMu around the real
@@ -225,6 +251,18 @@ func newProto(n *onet.TreeNodeInstance) (onet.ProtocolInstance, error) {
 			M3
 		}) error {
 			wrap(Delivery{Ty: 3, Items: []Item{{m.TreeNode, m.V}}})
+			return nil
+		},
+		func(m struct {
+			*onet.TreeNode
+			M5
+		}) error {
+			v := m.V
+			if !padOK(m.M5) {
+				v = -m.V - 1
+			}
+			// recorded as a plain type-3 delivery: the recipients' bookkeeping is the same
+			wrap(Delivery{Ty: 3, Items: []Item{{m.TreeNode, v}}})
 			return nil
 		},
 		func(m struct {
@@ -329,7 +367,7 @@ func Envelope(peer *network.ServerIdentity, from, to *onet.Token, msg interface{
 }
 
 func init() {
-	network.RegisterMessages(&M1{}, &M2{}, &M3{}, &M4{}, &MSync{})
+	network.RegisterMessages(&M1{}, &M2{}, &M3{}, &M4{}, &M5{}, &MSync{})
 	if _, err := onet.GlobalProtocolRegister(ProtoName, newProto); err != nil {
 		panic(err)
 	}
